@@ -32,6 +32,19 @@ def make_tree(root, rnd):
         with open(os.path.join(root, n), 'wb') as f:
             f.write(c)
     os.chmod(os.path.join(root, 'ro'), 0o444)
+    # special nodes whose open() fails in uncommon ways (a FIFO without reader opened for writing and a socket node give ENXIO)
+    os.mkfifo(os.path.join(root, 'fifo0'))
+    import socket
+    sk = socket.socket(socket.AF_UNIX, socket.SOCK_STREAM)
+    cwd0 = os.getcwd()
+    try:
+        fdd = os.open(root, os.O_RDONLY)
+        try:
+            sk.bind('/proc/self/fd/%d/sock0' % fdd)   # sun_path is limited to 107 bytes: bind through a short alias of the directory
+        finally:
+            os.close(fdd)
+    finally:
+        sk.close()
     return files
 
 
@@ -144,6 +157,9 @@ class History:
         self.begin_op()
         names = ['f0', 'f1', 'f2', 'sub/g0', 'ro', 'new%d' % r.randint(0, 3), 'sub/new%d' % r.randint(0, 2), 'sub', 'missing/x', '.', 'f0/x', 'sub/']
         p = r.choice(names)
+        special = r.random() < 0.06
+        if special:
+            p = r.choice(['fifo0', 'fifo0', 'sock0'])
         acc = r.choice(['r', 'w', 'rw', 'r', 'rw'])
         rights = {'r': R_READ, 'w': R_WRITE, 'rw': R_READ | R_WRITE}[acc]
         for extra in (R_SEEK, R_TELL, R_FDSTAT, R_ADVISE, R_SYNC, R_FILESTAT_GET):
@@ -162,7 +178,12 @@ class History:
             fdf |= F_SYNC
         if r.random() < 0.05:
             fdf |= F_DSYNC
+        if special:
+            fdf = F_NONBLOCK          # never block on the FIFO; no create/truncate games on special nodes
+            ofl &= O_DIRECTORY
         flags = {'r': os.O_RDONLY, 'w': os.O_WRONLY, 'rw': os.O_RDWR}[acc]
+        if fdf & F_NONBLOCK:
+            flags |= os.O_NONBLOCK
         if ofl & O_CREAT:
             flags |= os.O_CREAT
         if ofl & O_EXCL:
@@ -195,7 +216,14 @@ class History:
             st = os.fstat(pyfd)
             self.fds[fd] = dict(py=pyfd, path=p, readable=acc != 'w', writable=acc != 'r', isdir=stat.S_ISDIR(st.st_mode))
             g.mem[res:res + 4] = fd.to_bytes(4, 'little')
-        self.finish_call(idx, 'path_open', exp, ('path_open', abi, 'ok' if err == 0 else errno.errorcode.get(err, err), ofl, fdf, acc))
+        self.finish_call(idx, 'path_open', exp, ('path_open', abi, 'ok' if err == 0 else errno.errorcode.get(err, err), ofl, fdf, acc) + (('special:' + p,) if special else ()))
+        if special and err == 0:
+            # a FIFO end was opened (reader, or writer while a reader is open): only its opening is modelled; close both sides again
+            os.close(pyfd)
+            del self.fds[fd]
+            self.closed.append(fd)
+            i2 = g.call('fd_close', [fd], abi=abi)
+            self.finish_call(i2, 'fd_close', 0, ('fd_close', abi, 'ok', 'special'))
 
     def op_write(self, positional):
         r, g = self.r, self.g
@@ -472,8 +500,13 @@ def compare_trees(A, B):
         for n in fns:
             pa = os.path.join(dp, n)
             pb = os.path.join(B, rel, n)
-            if not os.path.exists(pb):
+            if not os.path.lexists(pb):
                 diffs.append('%s missing in WASI tree' % os.path.join(rel, n))
+                continue
+            if not stat.S_ISREG(os.lstat(pa).st_mode):
+                # special nodes (FIFO, socket): only their type is compared
+                if stat.S_IFMT(os.lstat(pa).st_mode) != stat.S_IFMT(os.lstat(pb).st_mode):
+                    diffs.append('%s: node type differs' % os.path.join(rel, n))
                 continue
             sa, ea = extents(pa)
             sb, eb = extents(pb)
